@@ -67,11 +67,12 @@ def fault_fn(task_name: str, nout: int, fault: dict | None):
 
         if fault is not None and fault["at"] == "before":
             boom()
-        if nout == 1:
+        n = kwargs.get("_n", nout)  # see harness.genjob.make_fn
+        if n == 1:
             return base
 
         def gen():
-            for i in range(nout):
+            for i in range(n):
                 if fault is not None and fault["at"] == "between" and i == 1:
                     boom()
                 yield base + "#" + str(i)
